@@ -105,6 +105,7 @@ func (server *Server) Start() error {
 	if err != nil {
 		return err
 	}
+	verifYield("start.opened", server)
 
 	if server.IsPortEnabled() {
 		go server.serve()
@@ -122,10 +123,12 @@ func (server *Server) Stop() error {
 	if err := server.ConnManager.Stop(); err != nil {
 		return err
 	}
+	verifYield("stop.mid", server)
 
 	if err := server.close(); err != nil {
 		return err
 	}
+	verifYield("stop.closed", server)
 
 	if server.IsPortEnabled() {
 		addr := net.JoinHostPort(server.Addr, strconv.Itoa(server.ConfigPort()))
@@ -154,7 +157,7 @@ func (server *Server) open() error {
 
 	if server.IsPortEnabled() {
 		addr := net.JoinHostPort(server.Addr, strconv.Itoa(server.ConfigPort()))
-		server.portListener, err = net.Listen("tcp", addr)
+		server.portListener, err = netListen("tcp", addr)
 		if err != nil {
 			return err
 		}
@@ -173,7 +176,7 @@ func (server *Server) open() error {
 			server.tlsConfig = tlsConfig
 		}
 		addr := net.JoinHostPort(server.Addr, strconv.Itoa(server.ConfigTLSPort()))
-		server.tlsPortListener, err = net.Listen("tcp", addr)
+		server.tlsPortListener, err = netListen("tcp", addr)
 		if err != nil {
 			return err
 		}
@@ -209,12 +212,14 @@ func (server *Server) serve() error {
 	defer server.close()
 
 	l := server.portListener
+	verifYield("accept.entry", l)
 	for {
 		if l == nil {
 			break
 		}
 		conn, err := l.Accept()
 		if err != nil {
+			verifYield("accept.exit", l)
 			return err
 		}
 
@@ -228,12 +233,14 @@ func (server *Server) serve() error {
 func (server *Server) tlsServe() error {
 	defer server.close()
 	l := server.tlsPortListener
+	verifYield("accept.entry", l)
 	for {
 		if l == nil {
 			break
 		}
 		conn, err := l.Accept()
 		if err != nil {
+			verifYield("accept.exit", l)
 			return err
 		}
 
@@ -270,9 +277,11 @@ func (server *Server) receive(conn net.Conn, tlsState *tls.ConnectionState) erro
 		}
 	}
 
+	verifYield("conn.register", conn)
 	server.AddConn(handlerConn)
 	defer func() {
 		server.RemoveConn(handlerConn)
+		verifYield("conn.deregister", conn)
 	}()
 
 	log.Debugf("%s/%s (%s) accepted", PackageName, Version, conn.RemoteAddr().String())
